@@ -206,7 +206,10 @@ def replay_target_dir(group):
 def run_native(group, h_name, module, vals, release):
     """build the replay overlay (real containers, real sort, real format!) and run the harness on recorded inputs.
     returns (reproduced, labels, output tail)"""
-    cfg = config.GROUPS[group]
+    cfg = dict(config.GROUPS[group])
+    hfile = [f for f in cfg["harness"] if f.endswith("/" + module.replace("::", "/") + ".rs")]
+    # all harnesses of the module get an entry: the overlay text (and with it cargo's fingerprint) must not depend on which one is replayed
+    cfg["harness_names"] = {f: sorted(set(h["name"] for h in config.HARNESSES if h["module"] == module and config.GROUPS[h["group"]]["package"] == cfg["package"])) for f in hfile}
     info = overlay.build(group, cfg, "replay")
     try:
         env = _env()
